@@ -111,6 +111,13 @@ impl TomlConverter {
 
     fn write(&self, v: &Val, w: &mut dyn Write) -> ConvertResult {
         let toml_val = self.convert_value(v)?;
+        if !toml_val.is_table() {
+            let err = SimpleError::new(format!(
+                "A TOML document must be a table (tuple) at the top level, got a {}",
+                toml_val.type_str()
+            ));
+            return Err(Box::new(err));
+        }
         let toml_bytes = toml::ser::to_string_pretty(&toml_val)?;
         write!(w, "{}", toml_bytes)?;
         Ok(())
